@@ -203,10 +203,14 @@ class WindowedWarmUpStager(Stager):
         trace_warm_up: bool = False,
     ) -> dict[str, ChainStage]:
         trace_funcs = tuple(trace_funcs) if trace_funcs is not None else trace_funcs
-        fast_adapters = {
-            trans_key: [adapter for adapter in adapter_list if adapter.is_fast]
-            for trans_key, adapter_list in adapters.items()
-        }
+        fast_adapters = (
+            None
+            if adapters is None
+            else {
+                trans_key: [adapter for adapter in adapter_list if adapter.is_fast]
+                for trans_key, adapter_list in adapters.items()
+            }
+        )
         if (
             self.n_init_fast_stage_iter
             + self.n_init_slow_window_iter
